@@ -695,3 +695,406 @@ func scannerClosedFact(p *kit.Prog, f kit.Fact) (closed bool, ok bool) {
 	}
 	return cmp.Op == token.EQL, true
 }
+
+// embed runs the rules of another property as one rule of this one (its obligations land in the rule
+// that is open; rule ids and minimum counts of the embedded property are not used).
+func embed(c *kit.Ctx, id, text string, min int, run func(*kit.Ctx)) {
+	c.StartRule(id, text, min)
+	was := c.Frozen
+	c.Frozen = true
+	run(c)
+	c.Frozen = was
+}
+
+// serialisedCallGetsAction: in multi.toProto, once a call has been serialised (its cells appended to
+// the region's cellblocks and counted) its action is appended on every path: a call dropped after
+// serialisation leaves orphan cells that the server hands to the following mutations of the region.
+// Shared by C05.R2, C10.R2 and C12.R3.
+func serialisedCallGetsAction(c *kit.Ctx, mtp *ssa.Function) {
+	var sers []ssa.CallInstruction
+	kit.Instrs(mtp, func(in ssa.Instruction) {
+		call, ok := in.(*ssa.Call)
+		if !ok {
+			return
+		}
+		nm := kit.CalleeName(call)
+		if nm == hrpcCall+"ToProto" || strings.HasSuffix(nm, "canSerializeCellBlocks).SerializeCellBlocks") {
+			sers = append(sers, call)
+		}
+	})
+	if len(sers) == 0 {
+		c.Unk(mtp, "serialised-call-gets-action", mtp.Pos(), "multi.toProto no longer serialises its calls in a recognisable way")
+	}
+	isPbsStore := func(in ssa.Instruction) bool {
+		st, ok := in.(*ssa.Store)
+		if !ok {
+			return false
+		}
+		fa, ok := st.Addr.(*ssa.FieldAddr)
+		return ok && kit.FieldVar(fa.X.Type(), fa.Field).Name() == "pbs"
+	}
+	for _, s := range sers {
+		e := kit.PathFrom(s.(ssa.Instruction), kit.PathQuery{
+			Stop:         isPbsStore,
+			IgnorePanics: true,
+			// the next call's serialisation or the end of the loop reached without the append
+			Target: func(in ssa.Instruction) bool {
+				if in == s.(ssa.Instruction) {
+					return true
+				}
+				for _, o := range sers {
+					if in == o.(ssa.Instruction) {
+						return true
+					}
+				}
+				_, isRet := in.(*ssa.Return)
+				return isRet
+			},
+		})
+		c.Check(e == nil, mtp, "serialised-call-gets-action", s.Pos(), "after this serialisation every path appends the call's action", "a call can be dropped after it was serialised: its cells are already in the region's cellblock (and counted in the cellblock length) but no action accounts for them, so the server attaches them to the following mutations: "+c.BlockPath(e))
+	}
+}
+
+// lockPairing: every Lock/RLock of a mutex field in the analysed packages is released on every path
+// to the function's exit (directly or by a deferred Unlock). A path that returns with the lock held -
+// typically an error return added above the Unlock - blocks every later user of that lock.
+func lockPairing(c *kit.Ctx, pkgSuffix string) {
+	p := c.P
+	n := 0
+	for _, fn := range p.Funcs {
+		if enclosingNamed(fn).Pkg == nil || !strings.HasSuffix(enclosingNamed(fn).Pkg.Pkg.Path(), pkgSuffix) {
+			continue
+		}
+		kit.Instrs(fn, func(in ssa.Instruction) {
+			call, ok := in.(*ssa.Call)
+			if !ok {
+				return
+			}
+			var unlock string
+			switch kit.CalleeName(call) {
+			case nmLock:
+				unlock = nmUnlock
+			case nmRWLock:
+				unlock = nmRWUnl
+			case "(*sync.RWMutex).RLock":
+				unlock = "(*sync.RWMutex).RUnlock"
+			default:
+				return
+			}
+			fa, ok := call.Call.Args[0].(*ssa.FieldAddr)
+			if !ok {
+				return
+			}
+			fv := kit.FieldVar(fa.X.Type(), fa.Field)
+			n++
+			sameMutex := func(v ssa.Value) bool {
+				fb, ok := v.(*ssa.FieldAddr)
+				return ok && kit.FieldVar(fb.X.Type(), fb.Field) == fv
+			}
+			// a deferred unlock anywhere after the lock covers all exits
+			deferred := false
+			kit.Instrs(fn, func(x ssa.Instruction) {
+				if d, ok := x.(*ssa.Defer); ok && kit.CalleeName(d) == unlock && sameMutex(d.Call.Args[0]) {
+					deferred = true
+				}
+			})
+			if deferred {
+				c.OK(fn, "lock-released", call.Pos(), "released by a deferred "+unlock)
+				return
+			}
+			e := kit.PathFrom(call, kit.PathQuery{
+				Stop: func(x ssa.Instruction) bool {
+					u, ok := x.(*ssa.Call)
+					return ok && kit.CalleeName(u) == unlock && sameMutex(u.Call.Args[0])
+				},
+				IgnorePanics: true,
+			})
+			c.Check(e == nil, fn, "lock-released", call.Pos(), "released on every path to the exit", "a path returns with "+fv.Name()+" still held: every later user of that lock blocks forever: "+c.BlockPath(e))
+		})
+	}
+	if n == 0 {
+		c.Unk(nil, "lock-released", token.NoPos, "no mutex acquisitions found")
+	}
+}
+
+// mustPass: every path from the entry of fn to a return passes an instruction accepted by through
+// (paths that end in a panic are ignored; skip names edges that need not be covered).
+func mustPass(fn *ssa.Function, through func(ssa.Instruction) bool, skip func(from, to *ssa.BasicBlock) bool) *kit.Exit {
+	return kit.PathFromEntry(fn, kit.PathQuery{Stop: through, SkipEdge: skip, IgnorePanics: true})
+}
+
+// decodeErrorsKeepTheConnection: once receive has claimed the call and registered its deferred
+// delivery, the frame has been consumed completely: what can still go wrong concerns that call only.
+// Errors made up there are not of the connection-level class (the server's own exception, translated
+// by exceptionToError, is whatever class it is). Shared by C20.R3 and C03.R6.
+func decodeErrorsKeepTheConnection(c *kit.Ctx) {
+	p := c.P
+	recv := p.Func("region", "client", "receive")
+	se := p.Named("region", "ServerError")
+	if recv == nil || se == nil {
+		c.Unk(nil, "post-claim-error-class", token.NoPos, "region.client.receive / ServerError not found")
+		return
+	}
+	var dfr ssa.Instruction
+	kit.Instrs(recv, func(in ssa.Instruction) {
+		if d, ok := in.(*ssa.Defer); ok && dfr == nil {
+			dfr = d
+		}
+	})
+	errAlloc := resultAlloc(recv, 0)
+	if dfr == nil || errAlloc == nil {
+		c.Unk(recv, "post-claim-error-class", recv.Pos(), "receive no longer delivers through a deferred call with a named error result")
+		return
+	}
+	n := 0
+	kit.Instrs(recv, func(in ssa.Instruction) {
+		st, ok := in.(*ssa.Store)
+		if !ok || st.Addr != ssa.Value(errAlloc) || !kit.Reaches(dfr, st) {
+			return
+		}
+		mi, ok := st.Val.(*ssa.MakeInterface)
+		if !ok {
+			return
+		}
+		n++
+		c.Check(!types.Identical(mi.X.Type(), se), recv, "post-claim-error-class", st.Pos(), "an error about the claimed call only ("+mi.X.Type().String()+")",
+			"an error detected after the frame was consumed and the call claimed is reported as a connection failure: the (healthy) connection shared by all regions of that server is torn down, every request on it fails over, and the server is dialled again")
+	})
+	if n == 0 {
+		c.Unk(recv, "post-claim-error-class", recv.Pos(), "no error construction found after the deferred delivery in receive")
+	}
+}
+
+// renewerStopsOnError: a failed renewal ends the lease renewer (a closed client fails every renewal:
+// a renewer that retries on the next tick never ends). Shared by C14.R5 and C19.R3.
+func renewerStopsOnError(c *kit.Ctx) {
+	p := c.P
+	rl := p.Func("", "scanner", "renewLoop")
+	if rl == nil {
+		c.Unk(nil, "renewer-stops-on-error", token.NoPos, "scanner.renewLoop not found")
+		return
+	}
+	n := 0
+	for _, call := range kit.Calls(rl, kit.M("", "*scanner", "renew")) {
+		errV := call.Value()
+		if errV == nil {
+			c.Bad(rl, "renewer-stops-on-error", call.Pos(), "the result of renew is ignored: the renewer cannot notice that its scanner or client is gone", "")
+			continue
+		}
+		n++
+		for _, r := range kit.Referrers(errV) {
+			bo, ok := r.(*ssa.BinOp)
+			if !ok {
+				continue
+			}
+			for _, rr := range kit.Referrers(bo) {
+				iff, ok := rr.(*ssa.If)
+				if !ok {
+					continue
+				}
+				cmp, ok := kit.CanonCmp(iff.Cond, true)
+				if !ok || !kit.IsNilConst(cmp.Y) {
+					continue
+				}
+				errB := kit.SuccOnTrue(iff)
+				if cmp.Op == token.EQL {
+					errB = kit.SuccOnFalse(iff)
+				}
+				e := kit.PathFromBlock(errB, kit.PathQuery{Target: func(x ssa.Instruction) bool { return x == call.(ssa.Instruction) }})
+				c.Check(e == nil, rl, "renewer-stops-on-error", call.Pos(), "on a failed renewal the loop is left", "after a failed renewal the renewer keeps going: once the client is closed (or the scanner gone) every tick fails and the goroutine, its ticker and its reference to the client stay forever: "+c.BlockPath(e))
+			}
+		}
+	}
+	if n == 0 {
+		c.Unk(rl, "renewer-stops-on-error", rl.Pos(), "renewLoop no longer calls renew")
+	}
+}
+
+// ctxLeaves returns the non-phi values a context value can be.
+func ctxLeaves(v ssa.Value) []ssa.Value {
+	r := kit.Root(v)
+	if ph, ok := r.(*ssa.Phi); ok {
+		return kit.PhiLeaves(ph)
+	}
+	return []ssa.Value{r}
+}
+
+func isDerivedCtx(v ssa.Value) bool {
+	ex, ok := kit.Root(v).(*ssa.Extract)
+	if !ok || ex.Index != 0 {
+		return false
+	}
+	call, ok := ex.Tuple.(*ssa.Call)
+	if !ok {
+		return false
+	}
+	switch kit.CalleeName(call) {
+	case "context.WithTimeout", "context.WithCancel", "context.WithDeadline":
+		return true
+	}
+	return false
+}
+
+// lookupContexts: in the lookup loops every attempt (ZooKeeper or hbase:meta) runs under a context
+// bounded by context.WithTimeout, and the back-off between attempts waits on the context the loop was
+// given - not on an attempt's context (which is cancelled as soon as the attempt is over: the wait
+// would fail at once with context.Canceled and the transient failure would surface to the caller).
+// Shared by C04.R4, C09.R6, C13.R1 and C17.R4.
+func lookupContexts(c *kit.Ctx) {
+	p := c.P
+	for _, nm := range []string{"lookupRegion", "lookupAllRegions"} {
+		fn := p.Func("", "client", nm)
+		if fn == nil {
+			c.Unk(nil, "lookup-contexts", token.NoPos, "client."+nm+" not found")
+			continue
+		}
+		n := 0
+		for _, call := range kit.Calls(fn, kit.M("", "*client", "zkLookup"), kit.M("", "*client", "metaLookup"), kit.M("", "*client", "metaLookupForTable")) {
+			n++
+			good := true
+			for _, l := range ctxLeaves(call.Common().Args[1]) {
+				ex, ok := l.(*ssa.Extract)
+				if !ok {
+					good = false
+					continue
+				}
+				wt, ok := ex.Tuple.(*ssa.Call)
+				if !ok || kit.CalleeName(wt) != "context.WithTimeout" {
+					good = false
+				}
+			}
+			c.Check(good, fn, "attempt-bounded", call.Pos(), "the attempt runs under a context.WithTimeout context", "a lookup attempt runs under a context without the lookup timeout: a ZooKeeper or meta request that hangs blocks the only establisher of that region forever, and with it every request that needs the region")
+		}
+		for _, call := range kit.Calls(fn, sleepName) {
+			n++
+			good := true
+			for _, l := range ctxLeaves(call.Common().Args[0]) {
+				if isDerivedCtx(l) {
+					good = false
+				}
+			}
+			c.Check(good, fn, "backoff-on-loop-context", call.Pos(), "the back-off waits on the context the loop was given", "the back-off between lookup attempts waits on the context of the attempt, which has just been cancelled: the wait returns context.Canceled at once and the first transient lookup failure ends the lookup (and, in the establisher, hits the 'unknown error' panic)")
+		}
+		if n == 0 {
+			c.Unk(fn, "lookup-contexts", fn.Pos(), "no lookup attempt or back-off found in "+nm)
+		}
+	}
+}
+
+// multiDecodesEveryResult: in multi.DeserializeCellBlocks every action result that carries a Result
+// is run through the call's own decoder (which consumes its cells) before the next result is looked
+// at: nothing - such as "the caller has given up" - skips it. Shared by C02.R6 and C12.R2.
+func multiDecodesEveryResult(c *kit.Ctx) {
+	p := c.P
+	md := p.Func("region", "multi", "DeserializeCellBlocks")
+	if md == nil {
+		c.Unk(nil, "multi-decodes-every-result", token.NoPos, "multi.DeserializeCellBlocks not found")
+		return
+	}
+	gets := kit.Calls(md, kit.M("region", "*multi", "get"))
+	if len(gets) == 0 {
+		c.Unk(md, "multi-decodes-every-result", md.Pos(), "multi.DeserializeCellBlocks no longer fetches the call of a result with m.get")
+	}
+	for _, g := range gets {
+		e := kit.PathFrom(g.(ssa.Instruction), kit.PathQuery{
+			IgnorePanics: true,
+			Stop: func(x ssa.Instruction) bool {
+				cc, ok := x.(*ssa.Call)
+				return ok && cc.Call.IsInvoke() && cc.Call.Method.Name() == "DeserializeCellBlocks"
+			},
+			Target: func(x ssa.Instruction) bool {
+				if x == g.(ssa.Instruction) {
+					return true
+				}
+				if r, ok := x.(*ssa.Return); ok {
+					ev := returnedError(r)
+					return ev != nil && kit.IsNilConst(kit.Root(ev))
+				}
+				return false
+			},
+		})
+		c.Check(e == nil, md, "multi-decodes-every-result", g.Pos(), "every result with cells goes through its call's decoder before the next one", "a result can be skipped without its cells being consumed: the running cellblock cursor stays behind, the following calls of the response read the wrong cells and the whole (successfully executed) batch ends with a short-read error and is executed again: "+c.BlockPath(e))
+	}
+}
+
+// regionExceptionUnchanged: the error multi.returnResults delivers is the error it was given or the
+// translation of the server's exception (exceptionToError), as it is: consumers act on its class.
+// Shared by C04.R3 and C12.R2.
+func regionExceptionUnchanged(c *kit.Ctx) {
+	p := c.P
+	mret := p.Func("region", "multi", "returnResults")
+	if mret == nil {
+		c.Unk(nil, "multi-error-unchanged", token.NoPos, "multi.returnResults not found")
+		return
+	}
+	errP := paramOfType(mret, "error", 0)
+	n := 0
+	kit.Instrs(mret, func(in ssa.Instruction) {
+		st, ok := in.(*ssa.Store)
+		if !ok {
+			return
+		}
+		fa, ok := st.Addr.(*ssa.FieldAddr)
+		if !ok || kit.FieldVar(fa.X.Type(), fa.Field).Name() != "Error" || !strings.HasSuffix(fa.X.Type().String(), "hrpc.RPCResult") {
+			return
+		}
+		n++
+		good := true
+		for _, l := range ctxLeaves(st.Val) {
+			if l == ssa.Value(errP) {
+				continue
+			}
+			if call, ok := l.(*ssa.Call); ok && kit.CalleeName(call) == kit.M("region", "", "exceptionToError") {
+				continue
+			}
+			good = false
+		}
+		c.Check(good, mret, "multi-error-unchanged", st.Pos(), "the error delivered is the given error or exceptionToError(...) unchanged", "multi.returnResults changes the class of an error before delivering it (wraps or re-labels it): an exception the server marked as final is retried, or a retryable one surfaces")
+	})
+	if n < 2 {
+		c.Unk(mret, "multi-error-unchanged", mret.Pos(), "fewer error deliveries than confirmed found in multi.returnResults")
+	}
+}
+
+// errorCarriesAssembledRow: once Next has started assembling a row from partial results, an error
+// is returned together with what was assembled. Shared by C14.R4 and C06.R2.
+func errorCarriesAssembledRow(c *kit.Ctx) {
+	p := c.P
+	next := p.Func("", "scanner", "Next")
+	if next == nil {
+		c.Unk(nil, "error-carries-row", token.NoPos, "scanner.Next not found")
+		return
+	}
+	coal := kit.Calls(next, kit.M("", "*scanner", "coalesce"))
+	if len(coal) == 0 {
+		c.Unk(next, "error-carries-row", next.Pos(), "Next no longer assembles rows with coalesce")
+		return
+	}
+	n := 0
+	kit.Instrs(next, func(in ssa.Instruction) {
+		r, ok := in.(*ssa.Return)
+		if !ok {
+			return
+		}
+		ev := returnedError(r)
+		if ev == nil || kit.IsNilConst(kit.Root(ev)) {
+			return
+		}
+		after := false
+		for _, cc := range coal {
+			if kit.Reaches(cc.(ssa.Instruction), r) {
+				after = true
+			}
+		}
+		if !after {
+			return
+		}
+		n++
+		call, isCall := kit.Root(kit.Res(r, 0)).(*ssa.Call)
+		c.Check(isCall && kit.CalleeName(call) == kit.M("", "", "toLocalResult"), next, "error-carries-row", r.Pos(), "the error is returned with toLocalResult(result): the cells assembled so far",
+			"an error in the middle of a row split over several responses is returned without the part of the row already assembled: those cells have been taken out of the buffer and the next call answers end-of-scan, so they are lost")
+	})
+	if n == 0 {
+		c.Unk(next, "error-carries-row", next.Pos(), "no error return found after the row assembly in Next")
+	}
+}
